@@ -1,0 +1,231 @@
+//go:build verif
+
+package fzf
+
+// Conformance-tracing hooks, compiled only with `-tags verif`.
+//
+// When FZF_VERIF_TRACE names a file, every hook appends one JSON line
+// {"seq":n,"ev":...} to it. The sequence number is assigned inside the tracer's
+// own mutex while the caller still holds the lock that protects the state it
+// describes, so the file order is the linearization order. Without the
+// environment variable (and without a sink installed by an in-package harness)
+// the hooks do nothing. verifGateFn lets an in-package harness block a
+// goroutine at a named point to force a schedule.
+
+import (
+	"encoding/json"
+	"hash/fnv"
+	"os"
+	"sync"
+
+	"github.com/junegunn/fzf/src/tui"
+)
+
+const verifOn = true
+
+var (
+	verifMu     sync.Mutex
+	verifSeq    int64
+	verifFile   *os.File
+	verifSink   func(map[string]interface{}) // in-package harnesses
+	verifGateFn func(name string, a int, b int)
+)
+
+func init() {
+	if path := os.Getenv("FZF_VERIF_TRACE"); path != "" {
+		if f, err := os.OpenFile(path, os.O_APPEND|os.O_CREATE|os.O_WRONLY, 0600); err == nil {
+			verifFile = f
+		}
+	}
+}
+
+func verifActive() bool {
+	return verifFile != nil || verifSink != nil
+}
+
+func verifEmit(ev string, m map[string]interface{}) {
+	verifMu.Lock()
+	defer verifMu.Unlock()
+	verifSeq++
+	m["seq"] = verifSeq
+	m["ev"] = ev
+	if verifSink != nil {
+		verifSink(m)
+	}
+	if verifFile != nil {
+		if b, err := json.Marshal(m); err == nil {
+			verifFile.Write(append(b, '\n'))
+		}
+	}
+}
+
+func verifKV(m map[string]interface{}, fields []interface{}) {
+	for i := 0; i+1 < len(fields); i += 2 {
+		m[fields[i].(string)] = fields[i+1]
+	}
+}
+
+const verifMaxIDs = 64
+
+// verifTermState projects the editor state; the caller holds t.mutex.
+func verifTermState(t *Terminal, m map[string]interface{}) {
+	m["input"] = string(t.input)
+	m["cx"] = t.cx
+	m["yanked"] = string(t.yanked)
+	m["cy"] = t.cy
+	m["offset"] = t.offset
+	m["multi"] = t.multi
+	sel := []int32{}
+	for _, s := range t.sortSelected() {
+		sel = append(sel, s.item.Index())
+	}
+	m["sel"] = sel
+	m["n"] = t.merger.Length()
+	m["count"] = t.count
+	m["reading"] = t.reading
+	m["paused"] = t.paused
+	m["sort"] = t.sort
+	m["track"] = int(t.track)
+	m["version"] = t.version
+	m["rev"] = []int{t.revision.major, t.revision.minor}
+	if t.window != nil {
+		m["maxItems"] = t.maxItems()
+	}
+}
+
+func verifMergerIDs(merger *Merger, m map[string]interface{}, texts bool, ansi bool) {
+	n := merger.Length()
+	m["n"] = n
+	if n <= verifMaxIDs {
+		ids := make([]int32, n)
+		var txt []string
+		for i := 0; i < n; i++ {
+			item := merger.Get(i).item
+			ids[i] = item.Index()
+			if texts {
+				txt = append(txt, item.AsString(ansi))
+			}
+		}
+		m["ids"] = ids
+		if texts {
+			m["texts"] = txt
+		}
+	} else {
+		h := fnv.New64a()
+		var b [4]byte
+		for i := 0; i < n; i++ {
+			idx := merger.Get(i).item.Index()
+			b[0], b[1], b[2], b[3] = byte(idx), byte(idx>>8), byte(idx>>16), byte(idx>>24)
+			h.Write(b[:])
+		}
+		m["digest"] = h.Sum64() & 0x1fffffffffffff
+	}
+}
+
+func verifTermAct(t *Terminal, a *action, event tui.Event) {
+	if !verifActive() {
+		return
+	}
+	m := map[string]interface{}{"act": a.t.Name(), "arg": a.a}
+	if a.t == actChar {
+		m["ch"] = string(event.Char)
+	}
+	verifTermState(t, m)
+	verifEmit("term.act", m)
+}
+
+func verifTermLoop(t *Terminal, event tui.Event, changed bool, reload bool) {
+	if !verifActive() {
+		return
+	}
+	m := map[string]interface{}{"key": event.KeyName(), "etype": int(event.Type), "changed": changed, "reload": reload}
+	verifTermState(t, m)
+	verifEmit("term.loop", m)
+}
+
+func verifTermList(t *Terminal) {
+	if !verifActive() {
+		return
+	}
+	m := map[string]interface{}{}
+	verifTermState(t, m)
+	verifMergerIDs(t.merger, m, true, t.ansi)
+	m["final"] = t.merger.final
+	m["mrev"] = []int{t.merger.Revision().major, t.merger.Revision().minor}
+	verifEmit("term.list", m)
+}
+
+func verifTermRender(t *Terminal, what string) {
+	if !verifActive() {
+		return
+	}
+	m := map[string]interface{}{"what": what}
+	verifTermState(t, m)
+	verifEmit("term.render", m)
+}
+
+func verifTermExit(t *Terminal, code int) {
+	if !verifActive() {
+		return
+	}
+	m := map[string]interface{}{"code": code}
+	verifTermState(t, m)
+	verifEmit("term.exit", m)
+}
+
+func verifCoord(ev string, fields ...interface{}) {
+	if !verifActive() {
+		return
+	}
+	m := map[string]interface{}{}
+	verifKV(m, fields)
+	verifEmit("coord."+ev, m)
+}
+
+func verifMatch(ev string, req *MatchRequest, merger *Merger, extra ...interface{}) {
+	if !verifActive() {
+		return
+	}
+	m := map[string]interface{}{}
+	if req != nil {
+		m["q"] = req.pattern.AsString()
+		m["count"] = CountItems(req.chunks)
+		m["final"] = req.final
+		m["sort"] = req.sort
+		m["rev"] = []int{req.revision.major, req.revision.minor}
+	}
+	if merger != nil {
+		verifMergerIDs(merger, m, false, false)
+	}
+	verifKV(m, extra)
+	verifEmit("match."+ev, m)
+}
+
+func verifPreview(ev string, fields ...interface{}) {
+	if !verifActive() {
+		return
+	}
+	m := map[string]interface{}{}
+	verifKV(m, fields)
+	verifEmit("pv."+ev, m)
+}
+
+func verifGate(name string, a int, b int) {
+	if fn := verifGateFn; fn != nil {
+		fn(name, a, b)
+	}
+}
+
+func verifItemIndex(item *Item) int {
+	if item == nil {
+		return -1
+	}
+	return int(item.Index())
+}
+
+func verifHead(lines []string, n int) []string {
+	if len(lines) > n {
+		return lines[:n]
+	}
+	return lines
+}
